@@ -3962,11 +3962,8 @@ where
         if Self::force_heuristic_rebuild_enabled() {
             let base_seed = self.heuristic_rebuild_base_seed();
             let seeds = config.resolve_seeds(base_seed);
-            let (candidate, stats, used_seeds) = self.rebuild_with_heuristic(seeds)?;
-            candidate
-                .tri
-                .tds
-                .advance_generation_past(self.tri.tds.generation());
+            let (mut candidate, stats, used_seeds) = self.rebuild_with_heuristic(seeds)?;
+            candidate.tri.tds.continue_generation_of(&self.tri.tds);
             *self = candidate;
             return Ok(DelaunayRepairOutcome {
                 stats,
@@ -3990,11 +3987,8 @@ where
                 }
                 let base_seed = self.heuristic_rebuild_base_seed();
                 let seeds = config.resolve_seeds(base_seed);
-                let (candidate, stats, used_seeds) = self.rebuild_with_heuristic(seeds)?;
-                candidate
-                    .tri
-                    .tds
-                    .advance_generation_past(self.tri.tds.generation());
+                let (mut candidate, stats, used_seeds) = self.rebuild_with_heuristic(seeds)?;
+                candidate.tri.tds.continue_generation_of(&self.tri.tds);
                 *self = candidate;
                 Ok(DelaunayRepairOutcome {
                     stats,
